@@ -205,6 +205,56 @@ easter_case(int N)
 		  zstr(b1, sizeof(b1), cvl_days(2023, 4, 9) + N));
 }
 
+/* BYEASTER with a LIST of offsets (the set container changes its representation at the 13th value) */
+static void
+easter_list_case(const int *N, int n)
+{
+	static long exp_[260 * 20], obs[260 * 20 + 64];
+	char lines[512], list[256] = "", sig[160], b1[48];
+	int ne = 0, no;
+	bool ended;
+	const long zlo = cvl_days(1902, 1, 1), zhi = cvl_days(2098, 12, 31);
+	size_t o = 0;
+
+	for (int i = 0; i < n; i++) o += (size_t)snprintf(list + o, sizeof(list) - o, "%s%d", i ? "," : "", N[i]);
+	for (int y = 1901; y <= 2099; y++) {
+		const struct cmp_md_s e = cmp_easter(y);
+		for (int i = 0; i < n; i++) {
+			const long z = cvl_days(y, e.m, e.d) + N[i];
+			if (z >= zlo && z <= zhi) exp_[ne++] = z;
+		}
+	}
+	for (int i = 1; i < ne; i++) for (int j = i; j > 0 && exp_[j - 1] > exp_[j]; j--) { long x = exp_[j]; exp_[j] = exp_[j - 1]; exp_[j - 1] = x; }
+	snprintf(lines, sizeof(lines), "DTSTART;VALUE=DATE:19010101\nRRULE:FREQ=YEARLY;BYEASTER=%s\n", list);
+	vd_desc("easter list: DTSTART;VALUE=DATE:19010101 RRULE:FREQ=YEARLY;BYEASTER=%s, occurrences in 1902-2098", list);
+	no = run_stream(obs, 260 * 20 + 64, lines, cvl_days(2099, 12, 31), &ended);
+	vd_sh->evals += ne;
+	if (no < 0) {
+		vd_viol("easter-list-no-stream", "the parser gave no recurring task");
+		return;
+	}
+	{
+		int i = 0, j = 0;
+		while (j < no && obs[j] < zlo) j++;
+		for (; i < ne; i++, j++) {
+			if (j >= no || obs[j] != exp_[i]) {
+				/* which offset is it */
+				int off = 0, yy = cvl_civil(exp_[i]).y;
+				for (int q = 0; q < n; q++) for (int dy = -1; dy <= 1; dy++) {
+					const struct cmp_md_s e = cmp_easter(yy + dy);
+					if (yy + dy >= 1901 && yy + dy <= 2099 && cvl_days(yy + dy, e.m, e.d) + N[q] == exp_[i]) off = N[q];
+				}
+				snprintf(sig, sizeof(sig), "easter-list-%s/n=%s/%s", (j < no && obs[j] < exp_[i]) ? "extra" : "missing", n <= 12 ? "le12" : "ge13", off == 0 ? "N=0" : off > 0 ? "N-pos" : "N-neg");
+				vd_viol(sig, "BYEASTER=%s: %s (Easter%+d) is expected as occurrence %d of the window, %s", list, zstr(b1, sizeof(b1), exp_[i]), off, i,
+					j < no ? "something else is delivered there" : "the stream has ended");
+				break;
+			}
+		}
+	}
+	NONTRIVIAL();
+	vd_sample("easter list of %d offsets (%s): %d expected in 1902-2098, %d delivered up to 2099", n, list, ne, no);
+}
+
 /* ---------- SHIFT ---------- */
 
 enum {F_DAY, F_B, F_BPLUS, F_BMINUS};
@@ -775,12 +825,12 @@ shift_multi(const struct spec_s *sp, int f, int inter)
 	no = run_stream(obs, 600, lines, Z1, &ended);
 	vd_sh->evals++;
 	if (no < 0) {
-		snprintf(sig, sizeof(sig), "multi-no-stream/%s/%s", fgroup(sp), (mfam[f].monthly ? nclass_m(sp) : nclass(sp)));
+		snprintf(sig, sizeof(sig), "multi-no-stream/%s/%s/%s/i%d", mfam[f].name, fgroup(sp), (mfam[f].monthly ? nclass_m(sp) : nclass(sp)), inter);
 		vd_viol(sig, "the parser gave no recurring task");
 		return;
 	}
 	if (nbad) {
-		snprintf(sig, sizeof(sig), "multi-not-a-date/%s/%s", fgroup(sp), (mfam[f].monthly ? nclass_m(sp) : nclass(sp)));
+		snprintf(sig, sizeof(sig), "multi-not-a-date/%s/%s/%s/i%d", mfam[f].name, fgroup(sp), (mfam[f].monthly ? nclass_m(sp) : nclass(sp)), inter);
 		vd_viol(sig, "%d occurrences are not all-day dates of the calendar, first: %s", nbad, badstr(b1, sizeof(b1)));
 	}
 	for (int j = 0; j < no; j++) {
@@ -827,6 +877,20 @@ enumerate(void)
 		_exit(3);
 	}
 	if (!strcmp(mode, "easter")) {
+		/* lists first: 12 values, 13 and 14 values with 0 at the front, in the middle, at the end */
+		static const int L[][16] = {
+			{12, -46, -3, -2, 0, 1, 7, 10, 20, 30, 39, 40, 49},
+			{13, 0, -46, -3, -2, 1, 7, 10, 20, 30, 39, 40, 49, 50},
+			{14, -3, -2, 0, 1, 7, 10, 20, 30, 39, 40, 49, 50, 60, 100},
+			{13, -46, -3, -2, 1, 7, 10, 20, 30, 39, 40, 49, 50, 0},
+			{14, -100, -60, -46, -7, -3, -2, -1, 1, 2, 39, 49, 50, 60, 0},
+			{2, -2, 0},
+		};
+		for (size_t q = 0; q < sizeof(L) / sizeof(*L); q++) {
+			if (!vd_next()) continue;
+			vd_shape("easter-list/n=%d", L[q][0]);
+			easter_list_case(&L[q][1], L[q][0]);
+		}
 		for (int a = 0; a <= 366; a++) {
 			for (int sgn = 1; sgn >= (a ? -1 : 1); sgn -= 2) {
 				if (!vd_next()) continue;
